@@ -258,20 +258,28 @@ def _create_generators(structure: List[dict], class_generator: Type[GenericModel
     ]
 
 
-def _fix_class_name_duplicates(generators: List[tuple], used: set = None):
+def _fix_class_name_duplicates(generators: List[tuple]):
     """
     The registry makes raw model names unique, but different raw names can normalize into one class name
     ("café" and "cafe"): keep the class names of a module distinct
     """
-    used = set() if used is None else used
-    for gen, nested_generators in generators:
-        name = gen.model.name
+    models = []
+
+    def collect(level: List[tuple]):
+        for gen, nested_generators in level:
+            models.append(gen.model)
+            collect(nested_generators)
+
+    collect(generators)
+    used = set()
+    # In the order of the registry, not of the layout: the flat and the nested layout have to agree on the names
+    for model in sorted(models, key=lambda m: (len(str(m.index)), str(m.index))):
+        name = model.name
         while name in used:
             name += "_"
         used.add(name)
-        if name != gen.model.name:
-            gen.model.set_raw_name(name, generated=gen.model.is_name_generated)
-        _fix_class_name_duplicates(nested_generators, used)
+        if name != model.name:
+            model.set_raw_name(name, generated=model.is_name_generated)
 
 
 def _render_generators(generators: List[tuple]) -> Tuple[ImportPathList, List[str]]:
